@@ -5,7 +5,7 @@ prop, name, src, caught = sys.argv[1:5]
 dst = f"/verif/seeded/{name}"
 os.makedirs(dst, exist_ok=True)
 for f in os.listdir(src):
-    if f != "meta.json":
+    if f != "meta.json" and f != "result.log" and os.path.isfile(os.path.join(src, f)):
         shutil.copy(os.path.join(src, f), dst)
 m = json.load(open(os.path.join(src, "meta.json")))
 meta = {"id": name, "breaks_property": prop,
